@@ -80,7 +80,16 @@ func scanSpecDirs(dirs []string, scanFn scanSpecFunc) error {
 				if errors.Is(err, fs.ErrNotExist) {
 					return nil
 				}
-				return err
+				if path == dir {
+					// a directory we cannot scan must not hide the others
+					return filepath.SkipDir
+				}
+				// an entry we cannot stat: report it if it is named like a
+				// Spec file, and go on with the rest of the directory
+				if ext := filepath.Ext(path); ext == ".json" || ext == ".yaml" {
+					return scanFn(path, priority, nil, err)
+				}
+				return nil
 			}
 			// first call from Walk is for dir itself, others we skip
 			if info.IsDir() {
